@@ -13,7 +13,7 @@ SPEC = {
     "claim": {
         "category": "exploration",
         "technique": "stateful model-based generation (rapidcheck byte-decoded histories, libFuzzer) over a pool of strings and result objects; invariant after every step: non-target strings byte- and pointer-identical, exclusive storage ownership via an allocation registry, no leak",
-        "text": "Generated histories interleave every kind of const call (about 200 call shapes: every overload family of find/compare/slice/trim/replace/split/convert/format/stream/operator+ incl. char8_t, deprecated, out-parameter and null_t forms, literals, C-string arguments that point into pool strings, and self-referential calls) with mutation, reassignment and destruction of sources and results in both orders; after every step all non-target strings must be byte-identical with an unchanged data pointer, every string, buffer and split piece must live in its own object or an exclusively owned heap block, results must keep their creation-time bytes, and at the end nothing may remain allocated. Extended histories also build strings in 14 unusual pre-states (moved-from, short-after-long then copied/moved/whole-sliced, self-assigned, self-appended, ...) and prefer them as sources, make strings from result-pool buffers by const reference and by rvalue, convert into live caller-supplied buffers, and set/assign/append a string from its own storage (exact expected bytes).",
+        "text": "Generated histories interleave every kind of const call (about 200 call shapes: every overload family of find/compare/slice/trim/replace/split/convert/format/stream/operator+ incl. char8_t, deprecated, out-parameter and null_t forms, literals, C-string arguments that point into pool strings, and self-referential calls) with mutation, reassignment and destruction of sources and results in both orders; after every step all non-target strings must be byte-identical with an unchanged data pointer, every string, buffer and split piece must live in its own object or an exclusively owned heap block, results must keep their creation-time bytes, and at the end nothing may remain allocated. Extended histories also build strings in 14 unusual pre-states (moved-from, short-after-long then copied/moved/whole-sliced, self-assigned, self-appended, ...) and prefer them as sources, make strings from result-pool buffers by const reference and by rvalue, convert into live caller-supplied buffers, and set/assign/append a string from its own storage (exact expected bytes). The object handed back by to_utf8/16/32/wchar/latin_1 must lie outside every live string object (a reference into the source is a violation).",
         "level_note": "Sampled histories (<= 60 operations over 8 strings + 6 result objects; first byte < 60 decodes with the original operation table, >= 60 with the extended one); exclusive ownership is judged through the allocation registry and ASan.",
     },
 }
